@@ -583,6 +583,11 @@ func (m *Manager) DeallocateNAT(privateIP net.IP) error {
 		}
 	}
 
+	// Remove the sessions, reverse entries and EIM mappings the subscriber leaves behind.
+	// nat44.c reuses them without looking at the subscriber's current block, so they must
+	// be gone before the block (still under poolMu here) or the address is handed out again.
+	m.purgeSubscriberState(privKey)
+
 	// Update pool count
 	if allocation.PoolIndex < len(m.pool) {
 		m.pool[allocation.PoolIndex].Subscribers--
@@ -599,6 +604,62 @@ func (m *Manager) DeallocateNAT(privateIP net.IP) error {
 	)
 
 	return nil
+}
+
+// natSessionKey mirrors struct nat_key (bpf/nat44.c)
+type natSessionKey struct {
+	SrcIP    uint32
+	DstIP    uint32
+	SrcPort  uint16
+	DstPort  uint16
+	Protocol uint8
+	_        [3]byte
+}
+
+// purgeSubscriberState deletes every nat_sessions entry (key.src_ip), nat_reverse entry
+// (value.src_ip) and eim_table entry (key.internal_ip) of the given private address.
+func (m *Manager) purgeSubscriberState(privKey uint32) {
+	if m.natSessions != nil {
+		var k natSessionKey
+		var v NATSession
+		var stale []natSessionKey
+		it := m.natSessions.Iterate()
+		for it.Next(&k, &v) {
+			if k.SrcIP == privKey {
+				stale = append(stale, k)
+			}
+		}
+		for i := range stale {
+			_ = m.natSessions.Delete(&stale[i])
+		}
+	}
+	if m.natReverse != nil {
+		var k, v natSessionKey
+		var stale []natSessionKey
+		it := m.natReverse.Iterate()
+		for it.Next(&k, &v) {
+			if v.SrcIP == privKey {
+				stale = append(stale, k)
+			}
+		}
+		for i := range stale {
+			_ = m.natReverse.Delete(&stale[i])
+		}
+	}
+	if m.eimTable != nil {
+		var k EIMKey
+		var v EIMMapping
+		var stale []EIMKey
+		it := m.eimTable.Iterate()
+		for it.Next(&k, &v) {
+			if k.InternalIP == privKey {
+				stale = append(stale, k)
+			}
+		}
+		for i := range stale {
+			_ = m.eimTable.Delete(&stale[i])
+		}
+	}
 }
 
 // ConfigureALG configures an Application Layer Gateway for a specific port
